@@ -94,6 +94,78 @@ def columns_collide(case):
     return len(set(cols)) != len(cols)
 
 
+# --------------------------------------------------------------------------- feature-name stream (kind == "names")
+NAME_POOL = ["a", "b", "grp", "Sex", "a b", "sensitive_feature_0", "control_feature_0", "sensitive_feature_1", "y", ""]
+
+
+def names_container(spec, n):
+    """the Python object for a container spec {"c": kind, "names": [...]} with n rows"""
+    c, names = spec["c"], spec["names"]
+    k = len(names)
+    cols = [[("v%d" % ((i + j) % 2)) for i in range(n)] for j in range(k)]
+    if c == "series":
+        return pd.Series(cols[0], name=names[0])
+    if c == "df":
+        return pd.DataFrame(np.array(cols, dtype=object).T.reshape(n, k), columns=list(names))
+    if c == "dict":
+        return {nm: col for nm, col in zip(names, cols)}
+    if c == "dict_ragged":
+        return {nm: col[: n - j] for j, (nm, col) in enumerate(zip(names, cols))}
+    if c == "list":
+        return list(cols[0])
+    if c == "list_nonscalar":
+        return [list(r) for r in np.array(cols, dtype=object).T.reshape(n, k)]
+    if c == "ndarray":
+        return np.array(cols, dtype=object).T.reshape(n, k)
+    if c == "ndarray3d":
+        return np.array([[["p", "q"], ["r", "s"]]] * n, dtype=object)
+    raise KeyError(c)
+
+
+def names_token(spec, n):
+    """the container as the Lean model sees it"""
+    c, names = spec["c"], spec["names"]
+    enc = (lambda v: "other" if not isinstance(v, str) else proto.s(v))
+    lst = (lambda vs: ",".join(enc(v) for v in vs) if vs else "-")
+    if c == "series":
+        return "series:none" if names[0] is None else "series:" + enc(names[0])
+    if c == "df":
+        return "df:" + lst(names)
+    if c == "dict":
+        return "dict:" + lst(names) + ":1"
+    if c == "dict_ragged":
+        return "dict:" + lst(names) + ":0"
+    if c == "list":
+        return "list:1"
+    if c == "list_nonscalar":
+        return "list:0"
+    if c == "ndarray":
+        k = len(names)
+        return f"array:2:{k}" if (n == 1 or k > 1) else "array:1:0"
+    if c == "ndarray3d":
+        return "array:3:0"
+    raise KeyError(c)
+
+
+def names_oracle(base, spec, n):
+    """first principles: the names a container must get, or 'reject'"""
+    c, names = spec["c"], spec["names"]
+    if c == "series":
+        if names[0] is None:
+            return [base + "0"]
+        return [names[0]] if isinstance(names[0], str) else "reject"
+    if c in ("df", "dict"):
+        return list(names) if all(isinstance(v, str) for v in names) else "reject"
+    if c in ("dict_ragged", "list_nonscalar", "ndarray3d"):
+        return "reject"
+    if c == "list":
+        return [base + "0"]
+    if c == "ndarray":
+        k = len(names)
+        return [base + str(i) for i in range(k)] if (n == 1 or k > 1) else [base + "0"]
+    raise KeyError(c)
+
+
 @register
 class CHECK(Check):
     pid = "C01"
@@ -109,7 +181,7 @@ class CHECK(Check):
     design_ref = "DESIGN.md section 4, C01"
     quick_cases = 1400
     thorough_cases = 8000
-    quick_budget_s = 75
+    quick_budget_s = 110
     thorough_budget_s = 900
     workers_thorough = 4
     rule = ("datasets of 1..40 rows; 1..3 sensitive and 0..2 control columns over alphabets of 1..4 string or int values "
@@ -202,10 +274,37 @@ class CHECK(Check):
     def generate(self, rng, tier):
         base_gen = self._generate_base(rng, tier)
         while True:
+            if self.extended and rng.random() < 0.12:
+                yield self._names_case(rng)
+                continue
             c = next(base_gen)
             if self.extended and rng.random() < 0.3 and len(c["y"]) <= 40:
                 c = self._multi_case(rng, c)
             yield c
+
+    def _names_spec(self, rng, n):
+        c = rng.choice(["series", "series", "df", "df", "dict", "dict", "list", "ndarray", "ndarray", "list_nonscalar",
+                        "ndarray3d", "dict_ragged"])
+        if c == "series":
+            names = [rng.choice([None, None, 5] + NAME_POOL)]
+        elif c in ("df", "dict"):
+            k = rng.choice([1, 2, 2, 3])
+            names = [rng.choice(NAME_POOL + NAME_POOL + [0, 7]) for _ in range(k)] if c == "df" else \
+                rng.sample(NAME_POOL + [0, 7], k)
+        elif c == "dict_ragged":
+            names = rng.sample(NAME_POOL[:5], 2)
+        elif c in ("list",):
+            names = [None]
+        else:
+            names = [None] * rng.choice([1, 2, 3])
+        if c in ("ndarray3d", "dict_ragged") and n < 2:
+            c, names = "list", [None]
+        return {"c": c, "names": names}
+
+    def _names_case(self, rng):
+        n = rng.choice([1, 2, 3, 4])
+        return {"kind": "names", "n": n, "sf": self._names_spec(rng, n),
+                "cf": self._names_spec(rng, n) if rng.random() < 0.6 else None}
 
     def _generate_base(self, rng, tier):
         while True:
@@ -250,6 +349,17 @@ class CHECK(Check):
                 yield case([[b for _, b in asg]], [[a for a, _ in asg]], n)
 
     def shrink(self, case):
+        if case.get("kind") == "names":
+            if case["cf"] is not None:
+                yield dict(case, cf=None)
+            for which in ("sf", "cf"):
+                sp = case[which]
+                if sp and len(sp["names"]) > 1 and sp["c"] in ("df", "dict", "ndarray"):
+                    for j in range(len(sp["names"])):
+                        yield dict(case, **{which: dict(sp, names=sp["names"][:j] + sp["names"][j + 1:])})
+            if case["n"] > 2:
+                yield dict(case, n=case["n"] - 1)
+            return
         n = len(case["y"])
 
         def drop_row(c, i):
@@ -318,9 +428,29 @@ class CHECK(Check):
             sp = {nm: sample_params_for(s, index) for nm, s in zip(case["names"], case["specs"])}
             if all(not v for v in sp.values()) and case["perm_seed"] % 2 == 0:
                 sp = None
+            elif case["perm_seed"] % 3 == 0:
+                # a metric without sample parameters may simply have no entry in sample_params (`sample_params.get(name, {})`)
+                sp = {k: v for k, v in sp.items() if v}
         return MetricFrame(metrics=metrics, y_true=y, y_pred=pred, sensitive_features=sfa, sample_params=sp, **kw)
 
+    def impl_names(self, case):
+        from fairlearn.metrics import MetricFrame, count
+        n = case["n"]
+        kw = {}
+        if case["cf"] is not None:
+            kw["control_features"] = names_container(case["cf"], n)
+        try:
+            mf = MetricFrame(metrics=count, y_true=[0] * n, y_pred=[1] * n,
+                             sensitive_features=names_container(case["sf"], n), **kw)
+        except ValueError:
+            return {"names": "ValueError"}
+        return {"names": "ok", "sensitive_levels": list(mf.sensitive_levels),
+                "control_levels": None if mf.control_levels is None else list(mf.control_levels),
+                "index_names": list(mf.by_group.index.names)}
+
     def impl(self, case):
+        if case.get("kind") == "names":
+            return self.impl_names(case)
         mf = self.build(case)
         ncf, nsf = len(case["cf"]), len(case["sf"])
         bg, ov = mf.by_group, mf.overall
@@ -344,6 +474,9 @@ class CHECK(Check):
         return [[mc.enc_level(v) for v in col] for col in case["cf"] + case["sf"]]
 
     def lines(self, case, impl_out):
+        if case.get("kind") == "names":
+            return [f"fn.names {names_token(case['sf'], case['n'])} "
+                    f"{'absent' if case['cf'] is None else names_token(case['cf'], case['n'])}"]
         n = len(case["y"])
         ys, ps = proto.lst([F(v) for v in case["y"]]), proto.lst([F(v) for v in case["pred"]])
         cols = " ".join(proto.strs(c) for c in self._cols(case))
@@ -380,7 +513,49 @@ class CHECK(Check):
             ov[c] = mc.oracle_metric(otag, sl) if sl else mc.NAN
         return by, ov
 
+    def judge_names(self, case, o, mo):
+        if "crash" in o:
+            return [Problem("correspondence", f"MetricFrame raised something other than ValueError: {o}", "C01.names_error_kind")]
+        probs = []
+        n = case["n"]
+        want_s = names_oracle("sensitive_feature_", case["sf"], n)
+        want_c = None if case["cf"] is None else names_oracle("control_feature_", case["cf"], n)
+        if want_s == "reject" or want_c == "reject":
+            want = "reject"
+        else:
+            allnames = want_s + (want_c or [])
+            want = "reject" if len(set(allnames)) != len(allnames) else (want_s, want_c)
+        if want == "reject":
+            if o["names"] != "ValueError":
+                probs.append(Problem("property", f"feature containers must be rejected (non-string / duplicate names, bad shape) "
+                                     f"but names {o.get('sensitive_levels')}/{o.get('control_levels')} were produced", "C01.names_rejected"))
+        else:
+            if o["names"] != "ok":
+                probs.append(Problem("property", f"valid feature containers rejected; expected names {want}", "C01.names_accepted"))
+            else:
+                got = o["sensitive_levels"] + (o["control_levels"] or [])
+                if not all(isinstance(x, str) for x in got) or len(set(got)) != len(got):
+                    probs.append(Problem("property", f"feature names {got} are not pairwise distinct strings", "C01.names_nodup"))
+                if (o["sensitive_levels"], o["control_levels"]) != want:
+                    probs.append(Problem("property", f"feature names {o['sensitive_levels']}/{o['control_levels']}, expected {want}",
+                                         "C01.names_accepted"))
+                elif o["index_names"] != (want[1] or []) + want[0]:
+                    probs.append(Problem("correspondence", f"by_group index names {o['index_names']}", "C01.control_first"))
+        if mo is not None:
+            m = mo[0]
+            if want == "reject":
+                ok = m.startswith("err:")
+            else:
+                t = m.split(" ")
+                ok = len(t) == 2 and proto.p_strs(t[0]) == want[0] and \
+                    ((t[1] == "none" and want[1] is None) or (t[1] != "none" and want[1] is not None and proto.p_strs(t[1]) == want[1]))
+            if not ok:
+                probs.append(Problem("harness", f"names model {m} vs oracle {want}"))
+        return probs
+
     def judge(self, case, o, mo):
+        if case.get("kind") == "names":
+            return self.judge_names(case, o, mo)
         if "crash" in o:
             return [Problem("property", f"MetricFrame construction failed on a valid input: {o}", "C01.accepts")]
         probs = []
@@ -473,6 +648,8 @@ class CHECK(Check):
         return probs
 
     def known(self, case, problem, entries):
+        if case.get("kind") == "names":
+            return None
         """F9: a 1-row dataset whose features come as a numpy array is rejected (np.squeeze drops the only axis).
         Exactly that shape: one row, an ndarray feature container, the constructor raising ValueError."""
         if problem.kind == "property" and problem.relation in ("C01.byGroup_cell", "C01.overall_eq", "C01.byGroup_empty") \
@@ -489,6 +666,10 @@ class CHECK(Check):
         return None
 
     def signature(self, case, o):
+        if case.get("kind") == "names":
+            tags = ["names", "names:sf=" + case["sf"]["c"], "names:cf=" + (case["cf"]["c"] if case["cf"] else "absent"),
+                    "names:" + str(o.get("names"))]
+            return ("names", json.dumps(case, sort_keys=True)), True, tags
         n = len(case["y"])
         ncf, nsf = len(case["cf"]), len(case["sf"])
         cols = self._cols(case)
